@@ -454,7 +454,7 @@ def mkS (id : Nat) (src : Q) : Ev :=
 /-- the `f` event of `create_flow_events_from_pair` -/
 def mkF (id : Nat) (src dst : Q) : Ev :=
   { dst.ev with ph := "f", name := src.h.sync, id := some id, bp := some "e",
-                ts := dst.ev.ts + dst.dur - 1 / 1000, hlp := none }
+                ts := dst.ev.ts + dst.dur - 1 / 1000, dur := none, hlp := none }
 
 /-- the loop of `build_flows` over `rest`, partners searched in the whole `queue` -/
 def buildLoop (queue : List Q) : Nat → List Q → Except Err (Nat × List Ev)
